@@ -227,7 +227,13 @@ func runC15(r *rep.Report, thorough bool) error {
 			if len(vals) == 0 {
 				continue
 			}
-			reply, err := d.Call(map[string]any{"op": "c15.judge", "env": a.Env, "type": map[string]any{"k": "ref", "q": q}, "values": vals})
+			// the values are judged against the types as analysed from a fresh load of the sources
+			// (the generated code comes from the analysis of the second load in this process)
+			judgeEnv := a.Env
+			if a.FirstEnv != nil {
+				judgeEnv = a.FirstEnv
+			}
+			reply, err := d.Call(map[string]any{"op": "c15.judge", "env": judgeEnv, "type": map[string]any{"k": "ref", "q": q}, "values": vals})
 			if err != nil {
 				return err
 			}
